@@ -21,31 +21,31 @@ NA = {
 CHECKS = {
  'C18': ('E-THR', 'engines/e_thr.py',
          'deterministic simulation: controller.py executed on a simulated threading under seeded schedules (random/PCT/sticky/starvation), history oracle + deadlock and fair-schedule liveness detection',
-         'seeded search over interleavings at synchronisation-primitive granularity of one solver thread (stub loop or the real Solver.solve) and 1-2 interface threads (unique or equal thread names, a CLI front end in some runs) running the unmodified controller.py; exactly-once, result delivery, pause/no-progress, deadlock and bounded liveness under a fair schedule are checked on every run. Sampling, not proof: a clean batch is evidence.',
+         'seeded search over interleavings at synchronisation-primitive granularity of one solver thread (stub loop or the real Solver.solve) and 1-2 interface threads (unique or equal thread names, a CLI front end in some runs, two waiting front ends that meet before they continue, generated controller methods called by keyword or position) running the unmodified controller.py; exactly-once, result delivery, pause/no-progress, deadlock and bounded liveness under a fair schedule are checked on every run. Sampling, not proof: a clean batch is evidence.',
          'trusts vsim.simthreads to implement CPython Lock/RLock/Condition semantics (FIFO notify, no spurious wake-ups); solver and front-end I/O are fakes; blocking-mode commands (executed in the caller) are outside the statement',
          'DESIGN.md section 3 E-THR'),
 }
 
 CHECKS['C10'] = ('E-SOLVE', 'engines/e_solve.py',
     'deterministic simulation: real Solver.solve driven by a scripted environment (fake integrator answering adaptive steps, fake clock with jumps, callbacks), trace predicates over the recorded step/dump history',
-    'seeded search over (dt, tf, pfreq, requested output times incl. clusters/step-time coincidences/1-ulp neighbours, n_damp, max_steps, adaptive answer sequences incl. None and order-of-magnitude jumps, callbacks, command handler, progress-bar clock jumps; parameters through the constructor or through the setters in a drawn order; a second Solver instance with callbacks of its own in the process); predicates: reaches tf, time strictly increases, step <= nominal, dumps at start/end/pfreq/requested times never stepped over, recorded dt nominal, callbacks once per step. Sampling, not proof.',
+    'seeded search over (dt, tf, pfreq, requested output times incl. clusters/step-time coincidences/1-ulp neighbours, n_damp, max_steps, adaptive answer sequences incl. None and order-of-magnitude jumps, callbacks, command handler, progress-bar clock jumps; parameters through the constructor or through the setters in a drawn order; a second Solver instance with callbacks of its own in the process; a run stopped by max_steps continued with a second solve()); predicates: reaches tf, time strictly increases, step <= nominal, dumps at start/end/pfreq/requested times never stepped over, recorded dt nominal, callbacks once per step. Sampling, not proof.',
     'integrator, particle arrays, dump_output and the clock are fakes; the writers themselves are C11\'s subject; tolerances are 4x the solver\'s own epsilon',
     'DESIGN.md section 3 E-SOLVE')
 
 CHECKS['C06'] = ('E-PA', 'engines/e_pa.py',
     'deterministic simulation (history dimension only): seeded histories of public ParticleArray operations on the compiled class, checked operation by operation against a record-list reference model',
-    'seeded search over histories (<= 40 operations, 1-3 arrays, typed/strided properties, constants, mixed tags, empty arrays; index arguments as list / ndarray / LongArray in drawn order, open-ended copy ranges, re-declared properties); after every operation: lengths = n x stride, recorded strides/types/defaults, multiset of whole records equal to the model, constants, alignment and num_real_particles. No schedule or fault exists for this property; only the history is searched. Sampling, not proof.',
+    'seeded search over histories (<= 40 operations, 1-3 arrays, typed/strided properties, constants, mixed tags, empty arrays; index arguments as list / ndarray / LongArray in drawn order, open-ended copy ranges, re-declared properties, truthy flags that are not True, property names resembling the built-in ones, empty replicas from get_particles_info); after every operation: lengths = n x stride, recorded strides/types/defaults, multiset of whole records equal to the model, constants, alignment and num_real_particles. No schedule or fault exists for this property; only the history is searched. Sampling, not proof.',
     'the model and the value generators in engines/e_pa.py; only valid arguments are generated; physical order is checked only through the alignment invariant',
     'DESIGN.md section 3 E-PA')
 
 CHECKS['C01'] = ('E-NNPS', 'engines/e_nnps.py',
     'deterministic simulation: seeded update histories (move / h change / add / remove / cache toggle / re-order + update) and cache-fill schedules (lazy fill in a drawn order, find_all_neighbors under drawn thread counts, implicit/explicit context) on every compiled CPU NNPS class, exact brute-force oracle with an equality band; every run in its own forked child',
-    'seeded search over (distribution incl. lattice-on-faces/coincident/collinear/far-from-origin/h over decades, class and knobs, 1-3 arrays with Local or mixed tags, all (src,dst) pairs, update history, query mode incl. cached and uncached queries sharing one output array); oracle: no missing / extra / duplicate / out-of-range index. Classes with recorded defects (z-order family, octree crashes) get a fixed small share of the runs and are attributed to narrowly signed known findings. Sampling, not proof.',
+    'seeded search over (distribution incl. lattice-on-faces/coincident/collinear/far-from-origin/h over decades, class and knobs, 1-3 arrays with Local or mixed tags, all (src,dst) pairs, update history, query mode incl. cached and uncached queries sharing one output array, arrays empty at construction and filled later, the same pair asked across an update without set_context); oracle: no missing / extra / duplicate / out-of-range index. Classes with recorded defects (z-order family, octree crashes) get a fixed small share of the runs and are attributed to narrowly signed known findings. Sampling, not proof.',
     'brute-force oracle in Python floats; pairs within 1e-12 relative of the cut-off may go either way; approximate=False; grid size bounded; slow (>25 s) runs are counted, not reported; real OpenMP threads for find_all_neighbors (static schedule) are not owned by the simulator',
     'DESIGN.md section 3 E-NNPS')
 CHECKS['C17'] = ('E-NNPS', 'engines/e_nnps.py',
     'deterministic simulation (history dimension): seeded histories dominated by spatial re-ordering on arrays with typed/strided identity properties and non-local tags, for every class implementing get_spatially_ordered_indices; permutation / whole-particle multiset / real-first invariants and exact queries after the next update',
-    'seeded search over distributions, classes, repeated re-ordering (directly or through Solver.reorder_particles, optionally inside a periodic box whose ghosts sit in the arrays) interleaved with moves/adds/removes, properties added after the NNPS was built, a restricted load-balancing property list, NaN / signed-zero property values; checks: index list is a permutation of 0..n-1, multiset of whole particle records (all properties, strides) unchanged, Local particles first and counted by num_real_particles, neighbour queries exact after the following update. Sampling, not proof.',
+    'seeded search over distributions, classes, repeated re-ordering (directly or through Solver.reorder_particles, optionally inside a periodic box whose ghosts sit in the arrays) interleaved with moves/adds/removes, properties added after the NNPS was built, a restricted load-balancing property list, the in-parallel flag, NaN / signed-zero property values; checks: index list is a permutation of 0..n-1, multiset of whole particle records (all properties, strides) unchanged, Local particles first and counted by num_real_particles, neighbour queries exact after the following update. Sampling, not proof.',
     'same trusted base as C01; neighbour-set violations without any re-ordering in the history are left to C01',
     'DESIGN.md section 3 E-NNPS / section 4 C17')
 
@@ -57,31 +57,31 @@ CHECKS['C07'] = ('E-DOM', 'engines/e_dom.py',
 
 CHECKS['C16'] = ('E-IO', 'engines/e_io.py',
     'deterministic simulation (history dimension): the simulator plays the integrator (advects inlet, fluid and outlet particles with a seeded velocity history) and calls the real Inlet/Outlet update of each shipped family; token model of the documented transfer rules checked after every update',
-    'seeded search over zone geometries (5 families or the default update classes, 1-3 D, axis-aligned and oblique normals, zone lengths, rows, ghost inlet / ghost outlet, props_to_copy, array names containing each other, a manager used before with other zone lengths, an idle second inlet) and velocity histories (uniform, sheared, reversing, several particles crossing in one update, landings within 1e-6 of an interface, overshooting the outlet zone, inactive stages); checks: each emission exactly once with copied values and the original recycled one zone length upstream, each fluid particle past the outlet plane moved exactly once, deletion beyond the far end by the next active update, nothing else created / duplicated / lost / changed, fluid count = initial + entered - left. Sampling, not proof.',
+    'seeded search over zone geometries (5 families or the default update classes, 1-3 D, axis-aligned and oblique normals, zone lengths, rows, ghost inlet / ghost outlet, props_to_copy, array names containing each other, a manager used before with other zone lengths, an idle second inlet, ghost-tagged bystanders in the fluid, an early load-balancing property list); ghost array identity and real-particle counts of every array checked and velocity histories (uniform, sheared, reversing, several particles crossing in one update, landings within 1e-6 of an interface, overshooting the outlet zone, inactive stages); checks: each emission exactly once with copied values and the original recycled one zone length upstream, each fluid particle past the outlet plane moved exactly once, deletion beyond the far end by the next active update, nothing else created / duplicated / lost / changed, fluid count = initial + entered - left. Sampling, not proof.',
     'the integrator is a fake; displacement between active updates below the inlet and fluid lengths; 1e-9 band around the code\'s own 1e-6 threshold',
     'DESIGN.md section 3 E-IO')
 
 CHECKS['C05'] = ('E-OMP', 'engines/e_omp.py',
     'deterministic simulation: whole Application runs under a seeded option swarm and, through guarded hooks, a simulated OpenMP schedule (drawn chunking, chunk-to-thread assignment, global execution order, cache thread ids); metamorphic relations to a serial linked-list baseline; write-set monitor at chunk boundaries',
     'seeded search over (problem: free-surface / two-array wall-bounded / periodic incompressible / mirror-domain gas dynamics / adaptive h with nested groups / two arrays that start to interact late) x --nnps (10 values + knobs) x --cache-nnps x --sort-gids x --reorder-freq x valid / invalid / partly valid shuffled gids x schedule (serial, real OpenMP 1-16 threads, simulated k threads with static/dynamic/guided chunking in a drawn interleaving); R1 bit-identical when sorted, R2 per-particle equality within 1e-7 otherwise, R3 repeat bit-identical; a stamped strided property stays with its particle; sampled check that a loop chunk writes only its own destination rows. Sampling, not proof.',
-    'simulated schedule has iteration granularity (interference inside one iteration is only covered by real-OpenMP outcome); problems are 6 small set-ups (elliptical drop, cavity, periodic Taylor-Green, gas shock tube in a mirror domain, adaptive-h block with a nested update_nnps group, fluid block reaching a fixed bed after some steps) at 25-500 particles, 1-12 steps; hooks H1/H2 in /repo (guarded)',
+    'simulated schedule has iteration granularity (interference inside one iteration is only covered by real-OpenMP outcome); problems are 7 small set-ups (elliptical drop, cavity, periodic Taylor-Green with the TVF and with the GTVF scheme, gas shock tube in a mirror domain, adaptive-h block with a nested update_nnps group, tall fluid block with a coarse patch reaching a fixed bed after some steps) at 25-500 particles, 1-12 steps; hooks H1/H2 in /repo (guarded)',
     'DESIGN.md section 3 E-OMP')
 
 CHECKS['C14'] = ('E-INTERP', 'engines/e_interp.py',
     'deterministic simulation (history dimension): seeded histories of interpolate / move+update / h change / value change / update_particle_arrays / set_interpolation_points on the real Interpolator (5 methods, generated evaluators) and, for 30% of the runs, the same equations through SPHEvaluator, each result compared with brute-force defining sums using the Python kernel classes',
-    'seeded search over 1-3 source arrays, dims 1-3, variable h / mass / density, properties missing in some arrays, explicit targets (1-D or 2-D arrays in C / Fortran order, integer-typed, zero coordinates left out) or the automatic grid, periodic domains, kernels, and re-binding/update histories; results compared at the user\'s own target points, result shape, earlier results unchanged; Shepard / sph / splash / splash_norm against their sums (zero where no source is in range, Shepard bounds), order1 against the solved moment system and linear-field reproduction where well conditioned. Sampling, not proof.',
+    'seeded search over 1-3 source arrays, dims 1-3, variable h / mass / density, properties missing in some arrays, explicit targets (1-D or 2-D arrays in C / Fortran order, integer-typed, zero coordinates left out) or the automatic grid, periodic domains, kernels, and re-binding/update histories; results compared at the user\'s own target points, result shape, earlier results unchanged, detected dimension and automatic-grid bounds, a second Interpolator alive, a flat array listed last, data in a small length unit; Shepard / sph / splash / splash_norm against their sums (zero where no source is in range, Shepard bounds), order1 against the solved moment system and linear-field reproduction where well conditioned. Sampling, not proof.',
     'oracle reads the source arrays as they are (ghost creation is C07\'s subject) and the target h the interpolator holds; 1e-9 relative tolerance; order1 skipped where cond(moment) >= 1e6',
     'DESIGN.md section 3 E-INTERP')
 
 CHECKS['C03'] = ('E-GROUP', 'engines/e_group.py',
     'deterministic simulation: a pool of generated group trees (tracing equations) executed by the real code generator + compiled program, serially and under a simulated loop schedule, with scripted condition answers / convergence thresholds / start-stop values; refinement check (exact equality of final states, constants and the pre/post/condition/py_initialize/reduce history) against a sequential reference interpreter calling the same Python methods',
-    'seeded search over (program from the pool - hand-written and generated trees -, optionally compiled as stage 0 of a multi-stage problem sharing its equation objects, optionally evaluated a second time after update_particle_arrays, particle data incl. ghost-tagged particles, condition answers, convergence thresholds, named/numeric start-stop values, t/dt, periodic domain on/off, cache on/off, simulated schedule on/off); exact equality with the literal execution of the documented semantics (group order, hook order per destination and source, index ranges, real flag, iterate/min/max, condition, pre/post, update_nnps incl. ghost refresh, sub-groups). Sampling, not proof.',
+    'seeded search over (program from the pool - hand-written and generated trees -, optionally compiled as stage 0 of a multi-stage problem sharing its equation objects, optionally evaluated a second time after update_particle_arrays, empty arrays, condition objects with a false truth value, particle data incl. ghost-tagged particles, condition answers, convergence thresholds, named/numeric start-stop values, t/dt, periodic domain on/off, cache on/off, simulated schedule on/off); exact equality with the literal execution of the documented semantics (group order, hook order per destination and source, index ranges, real flag, iterate/min/max, condition, pre/post, update_nnps incl. ghost refresh, sub-groups). Sampling, not proof.',
     'programs are from a generated family of 12 tracing equation classes (pool of 3 hand-written + 9 generated trees in quick, 120 in thorough), not arbitrary user code; neighbour order fixed by sort_gids; reference interpreter in engines/e_group.py',
     'DESIGN.md section 3 E-GROUP')
 
 CHECKS['C04'] = ('E-INTEG', 'engines/e_integ.py',
     'deterministic simulation: every shipped integrator and three user-defined ones (tracing steppers, py_stage hooks, two equation sets, update_nnps=False, different / same-class steppers per array, particle-injecting hook, an empty array) and shipped steppers, compiled by the real generator and stepped serially or under a simulated loop schedule; refinement check against a literal execution of the Python one_timestep (proxy self, Python stepper methods)',
-    'seeded search over (integrator x stepper program incl. underscore-prefixed stepper parameters, a source-less equation set, a callback object with false truth value, particle states with ghost-tagged particles, 1-4 consecutive steps incl. t0 != 0 and non-contiguous times, periodic domain on/off, simulated schedule on/off); exact equality (tracing) or 1e-13 relative (shipped steppers) of the final state and equality of the compute_accelerations(index, update_nnps) / update_domain / post-stage (t + stage_dt, dt, stage) history. Sampling, not proof.',
+    'seeded search over (integrator x stepper program incl. underscore-prefixed stepper parameters, a source-less equation set, three equation sets in same-named groups, a stepper with one stage only next to a full one, a same-named integrator class compiled earlier, a callback object with false truth value; the literal execution uses independently compiled evaluators; particle states with ghost-tagged particles, 1-4 consecutive steps incl. t0 != 0 and non-contiguous times, periodic domain on/off, simulated schedule on/off); exact equality (tracing) or 1e-13 relative (shipped steppers) of the final state and equality of the compute_accelerations(index, update_nnps) / update_domain / post-stage (t + stage_dt, dt, stage) history. Sampling, not proof.',
     'the compiled acceleration evaluator is shared by both sides (C03\'s subject); rigid-body steppers (body-indexed arrays) left out; every run in its own forked child with the cyclic GC off (an unexplained segfault at garbage collection of earlier generated modules was seen once runs shared a process)',
     'DESIGN.md section 3 E-GROUP / section 4 C04')
 
